@@ -197,11 +197,17 @@ func Encode(val interface{}, opts Options) ([]byte, error) {
 // EncodeInto is like Encode but uses a user-supplied buffer instead of allocating
 // a new one.
 func EncodeInto(buf *[]byte, val interface{}, opts Options) error {
+	old := len(*buf)
 	err := encodeIntoCheckRace(buf, val, opts)
 	if err != nil {
 		return err
 	}
-	*buf = encodeFinish(*buf, opts)
+	if old == 0 {
+		*buf = encodeFinish(*buf, opts)
+	} else {
+		/* only post-process what was appended: the bytes already in the buffer belong to the caller */
+		*buf = append((*buf)[:old], encodeFinish((*buf)[old:], opts)...)
+	}
 	return err
 }
 
